@@ -156,7 +156,8 @@ class C12(Machine):
                                                  'worker_crash']),
                              'pool': 0, 'task': rng.randrange(4),
                              'point': 'before_run'}]
-            op['giveup'] = rng.random() < 0.4
+            op['giveup'] = rng.choice(['clean', 'ignore', 'ignore', None,
+                                       None])
         return op
 
     def simplify(self, case):
@@ -419,10 +420,17 @@ class C12(Machine):
                     ctx.stats.probe('op_failed_by_fault')
                     self._check_state(ctx, cfg, obj, k + '(failed)')
                     ctx.pool.new_op(())
-                    if op.get('giveup'):
+                    if op.get('giveup') == 'clean':
                         sim.clean('computed')
                         ctx.stats.probe('gave_up_after_fault')
                         ctx.event(k + '/giveup')
+                        return
+                    if op.get('giveup') == 'ignore':
+                        # the caller neither repeats the operation nor
+                        # resets the object, it just carries on: nothing
+                        # half-done may be taken for done later
+                        ctx.stats.probe('carried_on_after_fault')
+                        ctx.event(k + '/ignored')
                         return
                     got = self._observe(ctx, cfg, obj, op, srcs, freqs)
                 want = self._want(ctx, cfg, obj, op, srcs, freqs)
